@@ -480,7 +480,7 @@ func (vc *VC) execBuiltin(x *ssa.Call, b *ssa.Builtin, c *ssa.CallCommon, st *St
 		case *types.Map:
 			_, _, ml, _, _, _, _ := vc.mapTerms(st, t)
 			vc.setVal(x, fmt.Sprintf("(select %s %s)", ml, v))
-			vc.assume(fmt.Sprintf("(>= %s 0)", vc.vals[x]))
+			vc.assume(fmt.Sprintf("(and (>= %s 0) (<= %s 9223372036854775807))", vc.vals[x], vc.vals[x]))
 		case *types.Basic:
 			vc.setVal(x, "(strlen "+v+")")
 		case *types.Array:
@@ -740,7 +740,7 @@ func (vc *VC) execReturn(x *ssa.Return, st *State) {
 		vc.ghostAssign(env, st, g)
 	}
 	for _, h := range vc.spec.Hints {
-		env.applyHint(h, reach)
+		vc.tryHint(env, h, reach)
 	}
 	o := vc.oblige("vacuity.return", "", reach, "true", "return is reachable under the contract assumptions")
 	o.expect = "sat"
@@ -896,4 +896,21 @@ func arrayKeySort(arraySort string) string {
 		}
 	}
 	return strings.Fields(s)[0]
+}
+
+// tryHint applies a function-level hint at a return; a hint that mentions locals
+// which do not exist on this path is skipped (it is not applicable there).
+func (vc *VC) tryHint(env *Env, h Hint, reach string) {
+	nl := len(vc.lines)
+	defer func() {
+		if r := recover(); r != nil {
+			if u, ok := r.(unsupported); ok && strings.Contains(u.msg, "unknown name") {
+				vc.lines = vc.lines[:nl]
+				env.side = nil
+				return
+			}
+			panic(r)
+		}
+	}()
+	env.applyHint(h, reach)
 }
